@@ -12,6 +12,9 @@ struct Entry {
     label: String,
     choices: Vec<u16>,
     since: Instant,
+    /// watchdog ticks that have seen this very execution still running (wall time alone is not trusted: a frozen
+    /// or starved process must not look like a blocked subject)
+    ticks_seen: u32,
 }
 
 struct State {
@@ -34,8 +37,12 @@ pub fn start(property: &str, tier: &str, out: &str, limit: Duration) {
         loop {
             std::thread::sleep(Duration::from_millis(500));
             let Some(m) = STATE.get() else { continue };
-            let st = m.lock().unwrap_or_else(std::sync::PoisonError::into_inner);
-            let stuck = st.running.values().find(|e| e.since.elapsed() > st.limit);
+            let mut st = m.lock().unwrap_or_else(std::sync::PoisonError::into_inner);
+            for e in st.running.values_mut() {
+                e.ticks_seen += 1;
+            }
+            let need = (st.limit.as_millis() / 500) as u32;
+            let stuck = st.running.values().find(|e| e.since.elapsed() > st.limit && e.ticks_seen >= need);
             if let Some(e) = stuck {
                 let v = serde_json::json!({
                     "property": st.property, "tier": st.tier, "engine": "psim", "level": "model_checking",
@@ -62,7 +69,7 @@ pub fn start(property: &str, tier: &str, out: &str, limit: Duration) {
 pub fn enter(label: &str, choices: &[u16]) {
     let Some(m) = STATE.get() else { return };
     let label = label.to_string();
-    m.lock().unwrap_or_else(std::sync::PoisonError::into_inner).running.insert(std::thread::current().id(), Entry { label, choices: choices.to_vec(), since: Instant::now() });
+    m.lock().unwrap_or_else(std::sync::PoisonError::into_inner).running.insert(std::thread::current().id(), Entry { label, choices: choices.to_vec(), since: Instant::now(), ticks_seen: 0 });
 }
 
 pub fn leave() {
